@@ -1,5 +1,6 @@
 import HdVerif.Model.Json
 import HdVerif.Model.VR
+import HdVerif.Model.VRGuards
 import HdVerif.Generated.T20vr
 import HdVerif.Generated.T20uid
 import HdVerif.Model.AliasTables
@@ -39,6 +40,7 @@ def handlers : List (String × Handler) := [
   ("checkLongString", fun j => do pure (exceptToJson unitJson (checkLongString (← getChars j "s")))),
   ("checkShortText", fun j => do pure (exceptToJson unitJson (checkShortText (← getChars j "s")))),
   ("checkLongText", fun j => do pure (exceptToJson unitJson (checkLongText (← getChars j "s")))),
+  ("pydAccepts", fun j => do pure (okJson (Json.bool (pydAccepts (← getStr j "vr") (← getChars j "s"))))),
   ("personNameWarns", fun j => do pure (okJson (Json.bool (personNameWarns (← getChars j "s"))))),
   ("re", fun j => do
     let p ← getRe j "p"
